@@ -130,16 +130,7 @@ fn at_mut<'a>(j: &'a mut J, p: &[usize]) -> &'a mut J {
 
 /// drop the `__*` types (keeps requests small; an introspection result need not list them for the reader)
 fn prune_introspection_types(j: &mut J) {
-    if let J::Obj(top) = j {
-        if let Some((_, J::Obj(s))) = top.iter_mut().find(|(k, _)| k == "__schema") {
-            if let Some((_, J::Arr(ts))) = s.iter_mut().find(|(k, _)| k == "types") {
-                ts.retain(|t| match t {
-                    J::Obj(kvs) => !kvs.iter().any(|(k, v)| k == "name" && matches!(v, J::Str(n) if n.starts_with("__"))),
-                    _ => true,
-                });
-            }
-        }
-    }
+    json::prune_types(j, &|n| n.starts_with("__"));
 }
 
 const OPTIONAL_KEYS: [&str; 7] = ["isDeprecated", "deprecationReason", "isRepeatable", "specifiedByURL", "description", "defaultValue", "ofType"];
@@ -368,6 +359,40 @@ impl Ctx<'_> {
             self.rep.fail("O", &format!("model-routes-not-equivalent:{class}"), &format!("routeJson(introspectSpec M) ≄ routeSdl(M): {}", short(&ans[7])), case.clone());
         }
 
+        // introspection results that omit several built-in scalars (older servers; and the part `Schema::extend` fills in):
+        // the ORDER of type names is compared too (it is observable in the declaration files)
+        {
+            let mut reqs = vec![];
+            let mut reals = vec![];
+            for _ in 0..3 {
+                let mut dj = j.clone();
+                if rng.coin() {
+                    prune_introspection_types(&mut dj);
+                }
+                let mut names: Vec<&str> = json::BUILTIN_SCALAR_NAMES.to_vec();
+                rng.shuffle(&mut names);
+                let k = 2 + rng.below(4);
+                let dropped: Vec<String> = names.iter().take(k).map(|s| s.to_string()).collect();
+                json::prune_types(&mut dj, &|n| dropped.iter().any(|d| d == n));
+                self.rep.count(&format!("omitted-builtin-scalars:{k}"));
+                let t = dj.text();
+                let real = match realschema::read_json(&t, |s| {
+                    realschema::add_builtin_scalars(s);
+                    realschema::schema_sexp(s)
+                }) {
+                    Ok(s) => s,
+                    Err(e) => e,
+                };
+                reqs.push(Sexp::call("route.json", vec![dj.to_sexp()]));
+                reals.push((real, t));
+            }
+            let ans = self.drv.batch(&reqs);
+            for ((real, t), a) in reals.iter().zip(ans.iter()) {
+                let c = json!({"json_text": t, "route": true});
+                self.k_cmp("route-json-omitted-builtins", real, &unwrap(a), &c);
+            }
+        }
+
         // damaged JSON
         let mut reqs = vec![];
         let mut reals = vec![];
@@ -473,13 +498,19 @@ fn main() {
         if let Some(t) = c.get("json_text").and_then(|t| t.as_str()) {
             // a damaged JSON text: real reader vs model
             let j: serde_json::Value = serde_json::from_str(t).unwrap_or(serde_json::Value::Null);
-            let real = match realschema::read_json(t, |s| realschema::schema_sexp(s)) {
+            let route = c.get("route").and_then(|r| r.as_bool()).unwrap_or(false);
+            let real = match realschema::read_json(t, |s| {
+                if route {
+                    realschema::add_builtin_scalars(s);
+                }
+                realschema::schema_sexp(s)
+            }) {
                 Ok(s) => s,
                 Err(e) => e,
             };
-            let a = ctx.drv.one(&Sexp::call("introspect.read", vec![replay_j(t, &j).to_sexp()]));
+            let a = ctx.drv.one(&Sexp::call(if route { "route.json" } else { "introspect.read" }, vec![replay_j(t, &j).to_sexp()]));
             let model = ok1(&a).cloned().unwrap_or(a);
-            ctx.k_cmp("read-damaged", &real, &model, c);
+            ctx.k_cmp(if route { "route-json-omitted-builtins" } else { "read-damaged" }, &real, &model, c);
         } else if c.get("project").is_some() {
             ocli::replay_project(&args, &cli, ctx.rep, c);
         } else if let Some(seed) = c.get("schema_seed").and_then(|s| s.as_u64()) {
